@@ -15,7 +15,12 @@ CHECKS = {
              "source changes. C01_erase_sound (Qed, closed): for every semantics of Python ASTs and observational equivalence satisfying the listed laws "
              "(non-interference of constructs, one validity law per instrumentation shape, the norm law), a passed check implies the rewritten program is equivalent "
              "to the source. The quick check obtains such a certificate in coqc for every generated program x direct-event subset x guard setting (~120, all "
-             "constructs of the generator incl. classes, match, comprehensions, try/finally, nested functions), and the oracle runs plain vs instrumented.",
+             "constructs of the generator incl. classes, match, comprehensions, try/finally, nested functions), and the oracle runs plain vs instrumented. "
+             "In addition C01_rw_frag / C01_rw_frag_certified are UNBOUNDED statements about a Gallina model of the rewriter itself (model/RwFrag.v: both passes on names, "
+             "constants, binary operations, comparison chains, unary / boolean / conditional expressions, expression statements, assignments, pass, nested if / else, with the "
+             "before_stmt / after_stmt / after_module_stmt expansion and direct and deferred emits): for every fragment program and every subscription set the erasure of the "
+             "model's output is the source; the model is tied to expr_rewriter.py / stmt_inserter.py by whole-tree equality with the real rewriter's output on 80 generated "
+             "fragment programs per run (K-syn).",
         note="The universal claim over programs is established program by program (translation validation with a verified checker), not by one theorem about a model "
              "of the rewriter; the laws are facts about CPython's evaluation, validated by the differential oracle, not proved. Trusted: Coq kernel + vm_compute; the "
              "AST exporter (interning, id canonicalisation); translators for node kinds, event names and reserved identifiers.",
